@@ -2,6 +2,7 @@ package main
 
 import (
 	"fmt"
+	"sort"
 	"strings"
 
 	"github.com/zclconf/go-cty/cty"
@@ -92,6 +93,15 @@ func k04k(s string) string { return "K04_k (" + s + ")" }
 func deepMarks(v cty.Value) cty.ValueMarks {
 	_, ms := v.UnmarkDeep()
 	return ms
+}
+
+func sortedMarks(m cty.ValueMarks) []string {
+	var out []string
+	for k := range m {
+		out = append(out, fmt.Sprintf("%v", k))
+	}
+	sort.Strings(out)
+	return out
 }
 
 func subset(a, b cty.ValueMarks) bool {
@@ -192,6 +202,10 @@ func outcomeStr(v cty.Value, err error, p bool) string {
 func genC04(c *Ctx, r *rng.R, i int) {
 	if i < 4 {
 		c04Corpus(c, i)
+		return
+	}
+	if i%13 == 7 {
+		c04StructuralToCollection(c, r)
 		return
 	}
 	switch r.Intn(16) {
@@ -660,6 +674,62 @@ func c04SetVal(c *Ctx, r *rng.R) {
 	}
 	if !us.RawEquals(cty.SetVal(stripAll(vs))) {
 		c.Fail("C04/result-changed", "SetVal of marked members differs from SetVal of stripped members", desc)
+	}
+}
+
+// c04StructuralToCollection: a tuple or object whose members are individually marked, some of them
+// null, converted to a list, set or map: every member's marks are still on the result (on the set
+// itself when the target is a set).
+func c04StructuralToCollection(c *Ctx, r *rng.R) {
+	etys := []cty.Type{cty.String, cty.Number, cty.Bool}
+	ety := etys[r.Intn(len(etys))]
+	n := 1 + r.Intn(3)
+	cfg := gv.KnownCfg
+	var elems []cty.Value
+	for j := 0; j < n; j++ {
+		var e cty.Value
+		if r.Chance(35) {
+			e = cty.NullVal(ety)
+		} else {
+			e = gv.Gen(r, gt.FromCtyOrNil(ety), cfg, 1)
+		}
+		if r.Chance(60) {
+			e = e.Mark(fmt.Sprintf("m%d", j))
+		}
+		elems = append(elems, e)
+	}
+	var v cty.Value
+	var target cty.Type
+	tety := ety
+	if r.Chance(25) {
+		tety = cty.String
+	}
+	switch r.Intn(4) {
+	case 0, 1:
+		v, target = cty.TupleVal(elems), cty.Set(tety)
+	case 2:
+		v, target = cty.TupleVal(elems), cty.List(tety)
+	default:
+		m := map[string]cty.Value{}
+		for j, e := range elems {
+			m[fmt.Sprintf("k%d", j)] = e
+		}
+		v, target = cty.ObjectVal(m), cty.Map(tety)
+	}
+	if r.Chance(25) {
+		v = v.Mark("outer")
+	}
+	desc := map[string]interface{}{"v": cq.Show(v), "target": fmt.Sprintf("%#v", target), "family": "structural-to-collection"}
+	c.paired("convert", []cty.Value{v}, func(as []cty.Value) (cty.Value, error) { return convert.Convert(as[0], target) }, true, desc)
+	// every member is kept by these conversions, so every member's marks are kept too
+	var res cty.Value
+	var err error
+	if p, _ := recovered(func() { res, err = convert.Convert(v, target) }); !p && err == nil {
+		_, got := res.UnmarkDeep()
+		_, want := v.UnmarkDeep()
+		if !subset(want, got) {
+			c.Fail("C04/member-mark-lost", fmt.Sprintf("convert: marks %v of the members, result carries only %v", sortedMarks(want), sortedMarks(got)), desc)
+		}
 	}
 }
 
